@@ -1,4 +1,4 @@
 From Coq Require Import Extraction ExtrOcamlBasic.
-From Texel Require Import Workers.Race Workers.AccessProofs.
+From Texel Require Import Workers.Race.
 Extraction Language OCaml.
-Extraction "race_model.ml" raceb_on f9_loc is_search is_quit is_params guarded.
+Extraction "race_model.ml" raceb_on loc_eqb.
